@@ -226,12 +226,22 @@ func runCheck(id, tier string, seed int, writeEvidence bool) (int, []violation) 
 	}
 	// replay and report
 	replays := loadReplayIndex()
+	type rres struct {
+		out, cmd string
+		failed   bool
+	}
+	rcache := map[string]rres{}
 	for i := range real {
 		v := &real[i]
 		for _, re := range replays {
 			if ok, _ := regexp.MatchString(re.Pattern, v.Obligation); ok {
-				out, failed, cmd := runReplay(re)
-				v.ReplayCmd, v.ReplayOut, v.Replayed = cmd, out, failed
+				r, done := rcache[re.Run]
+				if !done {
+					out, failed, cmd := runReplay(re)
+					r = rres{out, cmd, failed}
+					rcache[re.Run] = r
+				}
+				v.ReplayCmd, v.ReplayOut, v.Replayed = r.cmd, r.out, r.failed
 				break
 			}
 		}
